@@ -165,10 +165,10 @@ def ob_dials_not_limited(report):
         hits = []
         exs = []
         total = 0
-        for tname, meth, clo in (('ConnectionManager', 'dial_peer_task', [0, 0]), ('ConnectionManager', 'dial_peer_task', [0]),
+        for tname, meth, clo in (('ConnectionManager', 'dial_peer_task', [0]),
                                  ('ConnectionManager', 'handle_connectivity_check', None), ('ConnectionManager', 'dial_peer', None),
                                  ('ConnectionManager', 'handle_connect_request', None)):
-            ex = e2.executor('anemo', max_depth=3)
+            ex = e2.executor('anemo', timeout_models(), max_depth=5)
             exs.append(ex)
             fn = find_method(ex.prog, tname, meth)
             if clo:
@@ -187,7 +187,7 @@ def ob_dials_not_limited(report):
                         {'hits': hits[:4]}, key='dial-limited', paths=total)
             o.replay = write_replay(PROP, 'dial-limited', {'hits': hits[:10]})
             return o
-        ob.done(exs, 'held', '', {'functions': 5, 'paths': total}, paths=total)
+        ob.done(exs, 'held', '', {'functions': 4, 'paths': total}, paths=total)
     return guarded(report, 'dials_never_limited', 'explicit and background dials never read max_concurrent_connections',
                    ['ConnectionManager::dial_peer_task', 'ConnectionManager::handle_connectivity_check', 'ConnectionManager::dial_peer',
                     'ConnectionManager::handle_connect_request'], {'inline_depth': 3, 'loop_unroll': 2}, body)
